@@ -273,6 +273,24 @@ impl<VM: VMBinding> crate::policy::gc_work::PolicyTraceObject<VM> for MallocSpac
 #[allow(dead_code)]
 pub const MAX_OBJECT_SIZE: usize = usize::MAX;
 
+/// Verification hook (cfg mmtk_verif): the side-metadata context and descriptor of the space.
+#[cfg(mmtk_verif)]
+impl<VM: VMBinding> MallocSpace<VM> {
+    pub fn verif_metadata_context(
+        &self,
+    ) -> (
+        Vec<SideMetadataSpec>,
+        Vec<SideMetadataSpec>,
+        SpaceDescriptor,
+    ) {
+        (
+            self.metadata.global.clone(),
+            self.metadata.local.clone(),
+            self.descriptor,
+        )
+    }
+}
+
 impl<VM: VMBinding> MallocSpace<VM> {
     pub fn extend_global_side_metadata_specs(specs: &mut Vec<SideMetadataSpec>) {
         // MallocSpace needs to use VO bit. If the feature is turned on, the VO bit spec is in the global specs.
